@@ -266,4 +266,9 @@ def main(check_fn):
     except subprocess.TimeoutExpired as e:
         log("MACHINERY FAILURE (timeout): %s" % e)
         sys.exit(2)
+    except Exception:
+        import traceback
+        traceback.print_exc()
+        log("MACHINERY FAILURE (exit 2, not a verdict): internal error of the check")
+        sys.exit(2)
     sys.exit(rc)
